@@ -189,6 +189,8 @@ def handler : Handler := fun payload impl =>
 
   payload :=  step { " // " step }
   step    :=  "w " NAME " = " items     write (create / replace) a file
+                                        optionally with a fault plan between NAME and "=":
+                                        !open KIND | !read BYTE K INSIDE | !dir | !stat SIZE
            |  "rm " NAME                remove a file
            |  "q " term                 the query  ?- consult(Term).
            |  "load " items             Exec of a text
@@ -200,10 +202,21 @@ def parseStep (s : String) : Option Files.Step :=
   let (w, rest) := headWord s
   match w with
   | "w" =>
-    match rest.splitOn " = " with
-    | [n, its] => (parseItems its).map fun is => Files.Step.write (trim n) is
-    | [n] => some (Files.Step.write (trim ((n.splitOn " =").headD n)) [])
-    | _ => none
+    -- w NAME [!open KIND | !read BYTE K INSIDE | !dir | !stat SIZE] = items
+    let (lhs, its) := match rest.splitOn " = " with
+      | [l, i] => (l, i)
+      | [l] => ((l.splitOn " =").headD l, "")
+      | _ => ("", "BAD")
+    let fault : Option Files.Fault := match (lhs.splitOn " ").filter (· ≠ "") with
+      | [_] => some .none
+      | [_, "!open", _] => some .openFails
+      | [_, "!read", _, k, f] => (natOf k).map fun k => .readFails k (f == "1")
+      | [_, "!dir"] => some .directory
+      | [_, "!stat", _] => some .none
+      | _ => none
+    match (lhs.splitOn " ").filter (· ≠ ""), fault, parseItems its with
+    | n :: _, some fl, some is => some (Files.Step.write n ⟨is, fl⟩)
+    | _, _, _ => none
   | "rm" => some (.remove (trim rest))
   | "q" =>
     match parseTerms rest with
